@@ -11,6 +11,9 @@ import SkNet.Lemmas.ModularityPre
 import SkNet.Lemmas.ModularityFitComp
 import SkNet.Lemmas.ModularityLeiden
 import SkNet.Lemmas.ModularityLeidenComp
+import SkNet.Lemmas.ModularityRule
+import SkNet.Lemmas.ModularityConn
+import SkNet.Lemmas.ModularityTerm
 
 namespace SkNet.C06
 open SkNet SkNet.Modularity
@@ -99,6 +102,15 @@ example :
 
 /-! ## 2. the gain of a move -/
 
+/-- two triangles `{0,1,2}`, `{3,4,5}` joined by the edge `2 – 3` (unit weights): the concrete input of the examples -/
+def twoTriangles : Nat → Nat → Rat := fun i j =>
+  if (i, j) ∈ [(0,1),(1,0),(0,2),(2,0),(1,2),(2,1),(3,4),(4,3),(3,5),(5,3),(4,5),(5,4),(2,3),(3,2)] then 1 else 0
+
+/-- non-vacuity of the symmetry hypothesis of `delta_move` -/
+example : ∀ i j, i < 6 → j < 6 → twoTriangles i j = twoTriangles j i := by
+  have h : ∀ i, i < 6 → ∀ j, j < 6 → twoTriangles i j = twoTriangles j i := by decide +kernel
+  exact fun i j hi hj => h i hi j hj
+
 /-- **delta_move.**  For a symmetric matrix, the kernels' `delta_local − delta` is exactly the change of the
     generalised modularity `Q` when node `v` moves from its cluster to cluster `b`. -/
 theorem delta_move (n : Nat) (A : Nat → Nat → Rat) (hA : ∀ i j, i < n → j < n → A i j = A j i)
@@ -119,6 +131,17 @@ theorem scratch_invariant (g : Graph Rat) (hg : GraphOK g) (res : Rat) (K : Nat)
     CoreInv g K (nodeStep g res (st, acc) i).1 :=
   (nodeStep_spec g hg res K st acc hinv i hi).1
 
+/-- non-vacuity of `GraphOK` / `CoreInv` (hypotheses of the kernel theorems): they hold of the level that
+    `_pre_processing` builds from the two triangles (Newman weights) with the singleton state `_optimize` starts from -/
+example :
+    GraphOK (symLevel 6 twoTriangles (fun u => outDeg 6 twoTriangles u / 14) (fun u => outDeg 6 twoTriangles u / 14)).graph ∧
+    CoreInv (symLevel 6 twoTriangles (fun u => outDeg 6 twoTriangles u / 14) (fun u => outDeg 6 twoTriangles u / 14)).graph 6
+      { labels := arange 6,
+        outCl := (symLevel 6 twoTriangles (fun u => outDeg 6 twoTriangles u / 14) (fun u => outDeg 6 twoTriangles u / 14)).outW,
+        inCl := (symLevel 6 twoTriangles (fun u => outDeg 6 twoTriangles u / 14) (fun u => outDeg 6 twoTriangles u / 14)).inW,
+        cw := tab 6 fun _ => 0 } :=
+  ⟨(symLevel_levelOK _ _ _ _).graphOK, coreInv_singletons _ (symLevel_levelOK _ _ _ _)⟩
+
 /-- every move the kernel accepts has a strictly positive gain, equal to the change of `Q` -/
 theorem accepted_move_gain (g : Graph Rat) (hg : GraphOK g) (res : Rat) (K : Nat) (st : St Rat) (acc : Rat)
     (hinv : CoreInv g K st) (i : Nat) (hi : i < g.n) :
@@ -131,6 +154,19 @@ theorem accepted_move_gain (g : Graph Rat) (hg : GraphOK g) (res : Rat) (K : Nat
   · exact Or.inl h
   · exact Or.inr h
 
+/-- **best_move_rule.**  The decision of one node of `optimize_core`, in exact arithmetic: among the clusters of its
+    stored neighbours (other than its own) it moves to the one of maximal gain `Q(move) − Q` — the smallest label
+    among ties — and only if that gain is strictly positive; otherwise every such gain is `≤ 0` and it stays. -/
+theorem best_move_rule (g : Graph Rat) (hg : GraphOK g) (res : Rat) (K : Nat) (st : St Rat) (acc : Rat)
+    (hinv : CoreInv g K st) (i : Nat) (hi : i < g.n) :
+    let cand : Nat → Prop := fun t => (∃ e ∈ g.row i, labOf st.labels e.1 = t) ∧ t ≠ labOf st.labels i
+    ((nodeStep g res (st, acc) i).1.labels = st.labels ∧ ∀ t, cand t → moveGain g res st.labels i t ≤ 0) ∨
+    (∃ b, cand b ∧ (nodeStep g res (st, acc) i).1.labels = st.labels.set i b ∧
+      0 < moveGain g res st.labels i b ∧
+      (∀ t, cand t → moveGain g res st.labels i t ≤ moveGain g res st.labels i b) ∧
+      (∀ t, cand t → moveGain g res st.labels i t = moveGain g res st.labels i b → b ≤ t)) :=
+  nodeStep_rule g hg res K st acc hinv i hi
+
 /-- **optimize_core_increase.**  If `optimize_core` returns (any fuel, any tolerance), the returned `increase` is
     `Q(labels_out) − Q(labels_in)` and it is non-negative. -/
 theorem optimize_core_increase (g : Graph Rat) (hg : GraphOK g) (res tol : Rat) (K : Nat) (fuel : Nat)
@@ -139,6 +175,21 @@ theorem optimize_core_increase (g : Graph Rat) (hg : GraphOK g) (res tol : Rat) 
     inc = QG g res labels' - QG g res st.labels ∧ 0 ≤ inc :=
   let ⟨h1, h2, _⟩ := optimizeCore_spec g hg res tol K fuel st hinv labels' inc h
   ⟨h1, h2⟩
+
+/-- **termination of `optimize_core`** in exact arithmetic for a positive tolerance: `Q` is bounded over all
+    partitions and every pass that does not stop the loop raises it by more than `tol`, so from some fuel on the
+    model returns (and `optimize_core_increase` applies).  For `tol = 0` see `optimize_core_terminates_full`. -/
+theorem optimize_core_terminates_partial (g : Graph Rat) (hg : GraphOK g) (res tol : Rat) (htol : 0 < tol) (K : Nat)
+    (st : St Rat) (hinv : CoreInv g K st) :
+    ∃ fuel : Nat, ∀ fuel', fuel ≤ fuel' → (optimizeCore g res tol fuel' st).isSome = true :=
+  optimizeCore_terminates g hg res tol htol K st hinv
+
+/-- the full statement (not proved): also for `tol = 0` the loop ends in exact arithmetic — finitely many
+    partitions, `Q` strictly increasing along accepted moves.  (With float32 rounding it does **not** hold of the
+    compiled kernel: `tol_optimization = 0` can cycle for ever on spurious gains; termination is C17's subject.) -/
+def optimize_core_terminates_full : Prop :=
+  ∀ (g : Graph Rat) (res tol : Rat) (K : Nat) (st : St Rat), GraphOK g → CoreInv g K st → 0 ≤ tol →
+    ∃ fuel : Nat, ∀ fuel', fuel ≤ fuel' → (optimizeCore g res tol fuel' st).isSome = true
 
 /-- **clusters_within_components (one call of the kernel).**  A node only ever joins the cluster of a stored
     neighbour: if every cluster of the incoming labels lies in one connected component of the stored pattern
@@ -161,6 +212,23 @@ theorem aggregate_preserves_Q (labels : List Nat) (lv : Level) (hlv : LevelOK lv
         (aggregate labels lv).graph.inW γ c'
       = Q lv.n (adj lv.graph) lv.graph.outW lv.graph.inW γ (fun u => c' (labOf labels u)) :=
   aggregate_Q labels lv hlv hlen γ c'
+
+/-- aggregation preserves the total weight (`aggregate_preserves_Q` at resolution 0 for the one-cluster partition) -/
+theorem aggregate_preserves_total_weight (labels : List Nat) (lv : Level) (hlv : LevelOK lv)
+    (hlen : labels.length = lv.n) :
+    (sumTo (aggregate labels lv).n fun a => sumTo (aggregate labels lv).n (adj (aggregate labels lv).graph a))
+      = sumTo lv.n fun u => sumTo lv.n (adj lv.graph u) := by
+  have h := aggregate_Q labels lv hlv hlen 0 (fun _ => 0)
+  unfold Q at h
+  simpa using h
+
+/-- non-vacuity of `LevelOK` and of the length hypothesis: the first level of the two triangles, aggregated by its
+    two triangles -/
+example :
+    LevelOK (symLevel 6 twoTriangles (fun u => outDeg 6 twoTriangles u / 14) (fun u => outDeg 6 twoTriangles u / 14)) ∧
+    [0, 0, 0, 1, 1, 1].length
+      = (symLevel 6 twoTriangles (fun u => outDeg 6 twoTriangles u / 14) (fun u => outDeg 6 twoTriangles u / 14)).n :=
+  ⟨symLevel_levelOK _ _ _ _, rfl⟩
 
 /-- the aggregate of a well-formed level (symmetric, indices in range) is well-formed -/
 theorem aggregate_wellformed (labels : List Nat) (lv : Level) (hlv : LevelOK lv) (hlen : labels.length = lv.n) :
@@ -227,8 +295,7 @@ theorem refine_refines (g : Graph Rat) (hcols : ∀ i, i < g.n → ∀ e ∈ g.r
 /-- non-vacuity: the same two triangles through `Leiden.fit` (oracle `[[1,2,3,4,5,6,7,8,9,10,11,12]]`) -/
 example :
     (leidenFit .dugue 1 0 0 (-1) 6 6 14
-      (fun i j => if (i, j) ∈ [(0,1),(1,0),(0,2),(2,0),(1,2),(2,1),(3,4),(4,3),(3,5),(5,3),(4,5),(5,4),(2,3),(3,2)]
-        then 1 else 0) false 100 [[1,2,3,4,5,6,7,8,9,10,11,12], [1,2,3]]).toOption.join.map
+      twoTriangles false 100 [[1,2,3,4,5,6,7,8,9,10,11,12], [1,2,3]]).toOption.join.map
           (fun o => (o.labels, o.increases))
       = some ([0, 0, 0, 1, 1, 1], [26/49, 0]) := by
   decide +kernel
@@ -256,13 +323,31 @@ theorem leiden_clusters_within_components (kind : Kind) (res tolOpt tolAgg : Rat
       Connected (kindAdj kind nRow nCol B fb).1 (kindAdj kind nRow nCol B fb).2 u v :=
   leidenFit_comp kind res tolOpt tolAgg nAgg nRow nCol nnz B fb coreFuel rands out h
 
+/-- the executable component test of the spec lines accepts only labelings whose clusters lie inside connected
+    components (`Connected`, the relation of the two theorems above) … -/
+theorem components_test_sound (n : Nat) (A : Nat → Nat → Rat) (c : Nat → Nat)
+    (h : clustersWithinComponents n A c = true) :
+    ∀ u v, u < n → v < n → c u = c v → Connected n A u v :=
+  clustersWithinComponents_sound n A c h
+
+/-- … and accepts every such labeling, given the closure certificate it evaluates itself on every call -/
+theorem components_test_complete (n : Nat) (A : Nat → Nat → Rat) (c : Nat → Nat)
+    (hcert : ∀ u, u < n → closedUnder n A (reachK n A u n) = true)
+    (h : ∀ u v, u < n → v < n → c u = c v → Connected n A u v) :
+    clustersWithinComponents n A c = true :=
+  clustersWithinComponents_complete n A c hcert h
+
+/-- non-vacuity of the component test: the two triangles are one component, so any labelling passes, and the closure
+    certificate holds -/
+example : clustersWithinComponents 6 twoTriangles (fun u => u / 3) = true ∧
+    (∀ u, u < 6 → closedUnder 6 twoTriangles (reachK 6 twoTriangles u 6) = true) := by decide +kernel
+
 /-- non-vacuity: two triangles joined by an edge (6 nodes, unit weights, Dugué, γ = 1, tolerances 0): the fit returns
     the two triangles after two aggregations, with logged increases 26/49 and 0
     (objective 5/14 against −17/98 for the singletons) -/
 example :
     (louvainFit .dugue 1 0 0 (-1) 6 6 14
-      (fun i j => if (i, j) ∈ [(0,1),(1,0),(0,2),(2,0),(1,2),(2,1),(3,4),(4,3),(3,5),(5,3),(4,5),(5,4),(2,3),(3,2)]
-        then 1 else 0) false 100).toOption.join.map (fun o => (o.labels, o.increases))
+      twoTriangles false 100).toOption.join.map (fun o => (o.labels, o.increases))
       = some ([0, 0, 0, 1, 1, 1], [26/49, 0]) := by
   decide +kernel
 
